@@ -7,6 +7,7 @@ import (
 	"path/filepath"
 	"runtime/debug"
 	"sort"
+	"strings"
 )
 
 type propDef struct {
@@ -30,6 +31,7 @@ func main() {
 		list     = flag.Bool("list", false, "list obligations (all statuses)")
 		mutants  = flag.Bool("mutants", false, "run the mutant kill matrix of the property (informational)")
 		overlayF = flag.String("overlay", "", "internal: JSON file {abs path: replacement file} applied to the load")
+		dump     = flag.String("dump", "", "debug: print the SSA of the functions whose name contains this string and exit")
 	)
 	flag.Parse()
 	if t := os.Getenv("VERIF_TIER"); t != "" && !flagSet("tier") {
@@ -66,6 +68,14 @@ func main() {
 		fmt.Fprintf(os.Stderr, "checker: %v\n", err)
 		fmt.Printf("VIOLATION property=%s replay=%s\n", *property, "load-failure")
 		os.Exit(1)
+	}
+	if *dump != "" {
+		for _, fn := range c.RepoFuncs() {
+			if strings.Contains(fnName(fn), *dump) {
+				fn.WriteTo(os.Stdout)
+			}
+		}
+		os.Exit(0)
 	}
 	c.Verif = *verif
 	c.Property = *property
